@@ -1087,20 +1087,68 @@ func (n *Net) RecipeCommitThenRoundSkip() string {
 			n.FireTimeout(o)
 		}
 	}
+	mode := n.R.Intn(3) // 0: next-round prevotes reach the victim; 1: prevotes and nil precommits; 2: nil precommits only
 	for _, g := range n.Faulty {
 		if n.ValIndex(vals, g) < 0 {
 			continue
 		}
 		pv := n.SignVote(vals, g, tmproto.PrevoteType, h, round+1, types.BlockID{}, now)
-		n.Send(g, victim, &cs.VoteMessage{Vote: pv})
+		pc := n.SignVote(vals, g, tmproto.PrecommitType, h, round+1, types.BlockID{}, now)
+		for _, j := range n.Order {
+			n.Send(g, j, &cs.VoteMessage{Vote: pv})
+			if mode > 0 {
+				n.Send(g, j, &cs.VoteMessage{Vote: pc})
+			}
+		}
 	}
-	// D. the round r+1 prevotes reach the victim before the block does
-	got := n.DeliverWhere(4000, func(e *Envelope) bool {
-		v, ok := isVote(e, tmproto.PrevoteType)
-		return ok && v.Height == h && v.Round == round+1 && e.To == victim
-	})
+	got := 0
+	if mode > 0 {
+		// the others see 2/3-any prevotes of round r+1 but no polka, time out and precommit nil (keeping their lock)
+		for _, o := range others {
+			if rs := n.Nodes[o].CS.GetRoundState(); rs.Round != round+1 || rs.Step != cstypes.RoundStepPrevote {
+				continue
+			}
+			opk, _ := n.Nodes[o].PV.GetPubKey()
+			_, ov := vals.GetByAddress(opk.Address())
+			forB := ov.VotingPower
+			n.DeliverWhere(4000, func(e *Envelope) bool {
+				v, ok := isVote(e, tmproto.PrevoteType)
+				if !ok || v.Height != h || v.Round != round+1 || e.To != o {
+					return false
+				}
+				if len(v.BlockID.Hash) == 0 {
+					return true
+				}
+				_, val := vals.GetByAddress(v.ValidatorAddress)
+				if val == nil || (forB+val.VotingPower)*3 > total*2 {
+					return false
+				}
+				forB += val.VotingPower
+				return true
+			})
+			if t, p := n.Nodes[o].Ticker.Pending(); p && t.Round == round+1 && t.Step == cstypes.RoundStepPrevoteWait {
+				n.FireTimeout(o)
+			}
+		}
+		// the round r+1 precommits reach the victim before the block does
+		got += n.DeliverWhere(4000, func(e *Envelope) bool {
+			v, ok := isVote(e, tmproto.PrecommitType)
+			return ok && v.Height == h && v.Round == round+1 && e.To == victim
+		})
+	}
+	if mode < 2 {
+		// D. the round r+1 prevotes reach the victim before the block does
+		got += n.DeliverWhere(4000, func(e *Envelope) bool {
+			v, ok := isVote(e, tmproto.PrevoteType)
+			return ok && v.Height == h && v.Round == round+1 && e.To == victim
+		})
+	}
 	if got == 0 {
-		return "no-next-round-prevotes"
+		return "no-next-round-votes"
+	}
+	// a precommit-wait timeout the victim may have scheduled for round r+1 fires before the block arrives
+	if t, p := n.Nodes[victim].Ticker.Pending(); p && t.Height == h && t.Round == round+1 {
+		n.FireTimeout(victim)
 	}
 	// E. the others now receive the remaining round-r precommits and decide from round r
 	n.DeliverWhere(4000, func(e *Envelope) bool {
@@ -1114,5 +1162,5 @@ func (n *Net) RecipeCommitThenRoundSkip() string {
 		}
 	}
 	rsv = n.Nodes[victim].CS.GetRoundState()
-	return fmt.Sprintf("done(others-decided=%v,victim-step=%v,victim-round-moved=%v)", decided == len(others), rsv.Step, rsv.Round != round)
+	return fmt.Sprintf("done(mode=%d,others-decided=%v,victim-step=%v,victim-round-moved=%v)", mode, decided == len(others), rsv.Step, rsv.Round != round)
 }
